@@ -6,6 +6,7 @@ import (
 	"fmt"
 	"os"
 	"path/filepath"
+	"sync"
 
 	"gitlab.com/gomidi/midi/v2/smf"
 
@@ -26,7 +27,7 @@ func init() {
 			"resolution 0 (alias of 960), resolutions above 32767 (clamped) and more than 65535 tracks are outside the stated domain",
 			"messages are non-empty smf.Message values: channel messages, FF type VLQ payload metas in canonical form, F0/F7 sysex and escape messages",
 		},
-		Require: []string{"histories", "smpte_files", "rs_elisions_by_writer", "delta_ge_2^28", "early_close", "add_after_close", "variadic_add", "unclosed_tracks", "events_compared", "norunningstatus_files", "file_roundtrips"},
+		Require: []string{"histories", "smpte_files", "rs_elisions_by_writer", "delta_ge_2^28", "early_close", "add_after_close", "variadic_add", "unclosed_tracks", "events_compared", "norunningstatus_files", "file_roundtrips", "read_modify_write_values", "concurrent_roundtrips"},
 		Run:     runC01,
 	})
 }
@@ -366,6 +367,116 @@ func runC01(c *mon.Ctx) {
 		c01Check(c, a, fmt.Sprintf("history %d", i))
 		if i < 2 {
 			c.Sample("history", a.desc)
+		}
+	})
+
+	// values obtained from the reader are used with the writer API again: read, modify, write, read
+	c.Each("read-modify-write", c.N(3000, 300_000), func(i int64, r *mon.Rand) {
+		a := buildHistory(r, 1<<32-1, false)
+		var buf bytes.Buffer
+		if _, err := a.s.WriteTo(&buf); err != nil {
+			return
+		}
+		s1, err := smf.ReadFrom(bytes.NewReader(buf.Bytes()))
+		if err != nil {
+			return // decided by the histories group
+		}
+		sh := &ref.File{Format: a.sh.Format, Division: a.sh.Division}
+		for _, t := range a.sh.Tracks {
+			sh.Tracks = append(sh.Tracks, append([]ref.Ev(nil), t...))
+		}
+		b := &apiValue{s: s1, sh: sh}
+		b.log("value read back from a written history, then modified:")
+		switch r.Intn(5) {
+		case 0: // append a new track
+			var tr smf.Track
+			m := []byte{0x90, 1, 1}
+			tr.Add(7, m)
+			tr.Close(3)
+			s1.Add(tr)
+			sh.Tracks = append(sh.Tracks, []ref.Ev{{Delta: 7, Msg: m}, {Delta: 3, Msg: ref.EOT}})
+			if sh.Format == 0 {
+				sh.Format = 1
+			}
+			b.log("SMF.Add(new closed track)")
+		case 1: // drop the last track (if more than one)
+			if len(s1.Tracks) > 1 {
+				s1.Tracks = s1.Tracks[:len(s1.Tracks)-1]
+				sh.Tracks = sh.Tracks[:len(sh.Tracks)-1]
+				b.log("Tracks = Tracks[:n-1]")
+			}
+		case 2: // re-open the first track: replace its end of track and add events
+			t := s1.Tracks[0]
+			t = t[:len(t)-1]
+			m := ref.Meta(0x06, []byte("m"))
+			t.Add(5, m)
+			t.Close(9)
+			s1.Tracks[0] = t
+			st := sh.Tracks[0]
+			st = append(append([]ref.Ev(nil), st[:len(st)-1]...), ref.Ev{Delta: 5, Msg: m}, ref.Ev{Delta: 9, Msg: ref.EOT})
+			sh.Tracks[0] = st
+			b.log("track 0 re-opened, Add(5, marker), Close(9)")
+		case 3: // change the time format and the running status option
+			tf, div := randomTimeFormat(r)
+			s1.TimeFormat = tf
+			sh.Division = div
+			s1.NoRunningStatus = r.Bool()
+			b.log("TimeFormat = %v, NoRunningStatus = %v", tf, s1.NoRunningStatus)
+		default: // unchanged
+			b.log("(no modification)")
+		}
+		c.Count("read_modify_write_values", 1)
+		c01Check(c, b, fmt.Sprintf("read-modify-write %d", i))
+	})
+
+	// the API works on independent values: round trips from 8 goroutines at once must not interfere
+	c.Each("concurrent", c.N(8, 200), func(i int64, r *mon.Rand) {
+		type job struct {
+			a   *apiValue
+			out []byte
+			got *ref.File
+			err error
+		}
+		jobs := make([]*job, 64)
+		for k := range jobs {
+			jobs[k] = &job{a: buildHistory(mon.NewRand(c.Seed, "C01conc", fmt.Sprint(i), uint64(k)), 0x0FFFFFFF, false)}
+		}
+		var wg sync.WaitGroup
+		for g := 0; g < 8; g++ {
+			wg.Add(1)
+			go func(g int) {
+				defer wg.Done()
+				defer func() {
+					if p := recover(); p != nil {
+						jobs[g].err = fmt.Errorf("panic: %v", p)
+					}
+				}()
+				for k := g; k < len(jobs); k += 8 {
+					j := jobs[k]
+					var buf bytes.Buffer
+					if _, err := j.a.s.WriteTo(&buf); err != nil {
+						j.err = err
+						continue
+					}
+					j.out = buf.Bytes()
+					s2, err := smf.ReadFrom(bytes.NewReader(j.out))
+					if err != nil {
+						j.err = err
+						continue
+					}
+					j.got = fromLib(s2)
+				}
+			}(g)
+		}
+		wg.Wait()
+		for k, j := range jobs {
+			c.Count("concurrent_roundtrips", 1)
+			c.Eval(1)
+			if j.err != nil {
+				c.Violation("concurrent-error", fmt.Sprintf("round trip %d run concurrently with 7 others failed: %v", k, j.err), j.a.desc, nil, j.err.Error())
+			} else if d := ref.EqualFiles(j.a.sh, j.got); d != "" {
+				c.Violation("concurrent-roundtrip", "round trip run concurrently with 7 others changed the content: "+d, j.a.desc, nil, nil)
+			}
 		}
 	})
 
